@@ -5,7 +5,7 @@ PROP = "C05"
 EDITS = ["none", "deldir", "flip", "truncate", "append", "addfile", "adddir", "delete", "rename", "relink", "dangle", "swap_f2d",
          "swap_d2f", "below_norec", "uncopy", "rmobj", "rmart", "checkout_other", "lookalike", "movecache", "rmman", "emptied_rmman",
          "uncommitted", "same_size_old_mtime", "same_size_old_mtime", "rmobj_of_copy", "rmobj_of_copy", "dir_to_outside_link", "dir_to_outside_link",
-         "emptied_damaged_man", "emptied_damaged_man"]
+         "emptied_damaged_man", "emptied_damaged_man", "commit_through_dirlink", "commit_through_dirlink"]
 
 
 def make_cases(rng, tier, n):
@@ -124,6 +124,16 @@ def make_cases(rng, tier, n):
             tgt = rng.choice(pool_) if pool_ else None
             if tgt and not any("r" in a[1] and tgt.startswith(a[0] + b"/") for a in dart):
                 ops.append(("dirlink", tgt))
+            else:
+                edit = "none"
+        elif edit == "commit_through_dirlink" and dart:
+            # a committed directory artifact is replaced by a symbolic link to a directory elsewhere holding the same names and bytes
+            # (or other data), and `dud commit` is run again: whatever commit answers, a commit that SUCCEEDS leaves every artifact
+            # up to date
+            cand_ = [a for a in dart if "r" not in a[1]]
+            if cand_:
+                a_ = rng.choice(cand_)[0]
+                ops += [("dirlink", a_) if rng.random() < 0.6 else ("fdirlink", a_), ("commit", rng.choice("lc"), []), ("status", [])]
             else:
                 edit = "none"
         elif edit == "lookalike" and files and strat == "l":
@@ -309,6 +319,16 @@ def oracle(run):
     commit = steps[0]
     stat_steps = [s for s in steps if s["op"][0] == "status" and s["rc"] == 0]
     v += plain_input_verdicts(run, stat_steps)
+    # "right after a successful commit every artifact is reported up-to-date" (the commit of everything, no targets)
+    for k in range(1, len(steps)):
+        s, pc = steps[k], steps[k - 1]
+        if s["op"][0] == "status" and s["rc"] == 0 and not s["op"][1] and pc["op"][0] == "commit" and pc["rc"] == 0 and not pc["op"][2]:
+            for p, st_ in s1eval.status_of(s).items():
+                if not st_["tree"]["cm"]:
+                    v.append(("debug", "right after a successful `%s` status --debug says ContentsMatch=False for %s (%r) (edit: %s)" % (
+                        s1.op_text(pc["op"]), p.decode(), st_["text"], run["case"].get("edit"))))
+    if run["case"].get("edit") == "commit_through_dirlink":
+        return v          # (the artifact's state after the SECOND commit is what the clause above judges)
     for s in stat_steps:
         exp = expected(run, commit, s)
         got = s1eval.status_of(s)
